@@ -43,6 +43,9 @@ ParamsDigestComp == "params-sha256=000000000000000000000000000000000000000000000
 TypeOf(c) == IF c = DigestComp THEN "d"
              ELSE IF c = ParamsDigestComp THEN "pd"
              ELSE IF Len(c) >= 2 /\ SubSeq(c, 1, 2) = "v=" THEN "v"
+             \* two component types whose TLV-TYPE number takes the three-octet form (both start with 0xFD on the wire)
+             ELSE IF Len(c) >= 4 /\ SubSeq(c, 1, 4) = "300=" THEN "t300"
+             ELSE IF Len(c) >= 4 /\ SubSeq(c, 1, 4) = "301=" THEN "t301"
              ELSE "g"
 StripDigest(n) == IF Len(n) > 0 /\ n[Len(n)] = DigestComp THEN SubSeq(n, 1, Len(n) - 1) ELSE n
 
